@@ -610,6 +610,15 @@ class RedlineEngine:
         else:
             active_mapper = self.mapper
 
+        # Text that is already marked deleted cannot be edited again: nesting a deletion (or an insertion)
+        # inside a pending deletion corrupts the revision markup.
+        if any(
+            s.run is not None and s.del_id and s.end > start_idx and s.start < start_idx + match_len
+            for s in active_mapper.spans
+        ):
+            logger.warning(f"Skipping edit: target '{edit.target_text[:20]}...' overlaps text that is already deleted.")
+            return False
+
         # --- HEURISTIC NESTED EDIT FIX ---
         context_span = active_mapper.get_context_at_range(start_idx, start_idx + match_len)
 
